@@ -27,7 +27,14 @@ type c21Shadow struct {
 	owner int // index into reqs
 }
 
-func VerifC21_Order() {
+// VerifC21_Order: every completion order of the lower unit.
+func VerifC21_Order() { c21Run(verifrt.Bound("requests", 3, 4), 0) }
+
+// VerifC21_Stray: as Order with fewer requests, plus one stray response that
+// answers no live request.
+func VerifC21_Stray() { c21Run(verifrt.Bound("requests", 2, 3), 1) }
+
+func c21Run(nReq int, strays int) {
 	engine := timing.NewSerialEngine()
 	spec := Spec{Freq: 1 * timing.GHz, BufferSize: 1 + verifrt.Choice("buffer", 3), NumReqPerCycle: 1 + verifrt.Choice("width", 2), BottomUnit: "Mem.Top"}
 	comp := MakeBuilder().WithRegistrar(modeling.NewStandaloneRegistrar(engine)).WithSpec(spec).Build("ROB")
@@ -42,7 +49,6 @@ func VerifC21_Order() {
 	bottom := mk("Bottom", 4)
 	mk("Control", 1)
 
-	nReq := verifrt.Bound("requests", 3, 4)
 	reqs := make([]c21Req, 0, nReq)
 	for i := 0; i < nReq; i++ {
 		r := c21Req{id: verifrt.Uint64("req-id"), isRead: verifrt.Choice("read", 2) == 1}
@@ -92,9 +98,27 @@ func VerifC21_Order() {
 			outstanding = append(outstanding, c21Shadow{msg: sh, owner: seenShadow})
 			seenShadow++
 		}
-		// … and completes one of them, in any order, or waits
+		// a stray response (e.g. the late answer to a request forgotten by a reset):
+		// its RspTo matches no outstanding shadow request; the ROB must drop it
 		busy := false
-		if len(outstanding) > 0 && bottom.CanDeliver() {
+		if strays > 0 && bottom.CanDeliver() && verifrt.Choice("stray", 2) == 1 {
+			strays--
+			id := verifrt.Uint64("stray-rspto")
+			for _, sh := range outstanding {
+				verifrt.Assume(id != sh.msg.Meta().ID)
+			}
+			for _, tr := range comp.State.Transactions {
+				verifrt.Assume(id != tr.ReqToBottomID)
+			}
+			rsp := memprotocol.DataReadyRsp{Data: []byte{verifrt.Byte("stray-data")}}
+			rsp.ID = timing.GetIDGenerator().Generate()
+			rsp.Src, rsp.Dst, rsp.RspTo = spec.BottomUnit, bottom.AsRemote(), id
+			bottom.Deliver(rsp)
+			busy = true
+			verifrt.Cover("stray")
+		}
+		// … and completes one of them, in any order, or waits
+		if !busy && len(outstanding) > 0 && bottom.CanDeliver() {
 			k := verifrt.Choice("complete", len(outstanding)+1)
 			if k < len(outstanding) || stalls == 0 {
 				if k >= len(outstanding) {
